@@ -86,10 +86,42 @@ fn next_random() -> u64 {
     })
 }
 
+// Gates: the harness can hold the next thread that reaches a schedule point until it
+// says so, which lets it replay a specific interleaving found by the model checker.
+// 0 = open, 1 = armed, 2 = a thread is held, 3 = released.
+static GATES: [AtomicU64; NPOINTS] = [const { AtomicU64::new(0) }; NPOINTS];
+
+/// The next thread that reaches point `id` is held there until `release_gate(id)`.
+pub fn arm_gate(id: usize) {
+    GATES[id % NPOINTS].store(1, Ordering::SeqCst);
+}
+
+/// Is a thread being held at point `id`?
+pub fn gate_reached(id: usize) -> bool {
+    GATES[id % NPOINTS].load(Ordering::SeqCst) == 2
+}
+
+pub fn release_gate(id: usize) {
+    GATES[id % NPOINTS].store(3, Ordering::SeqCst);
+}
+
+fn pass_gate(id: usize) {
+    let g = &GATES[id % NPOINTS];
+    if g.load(Ordering::Relaxed) == 1
+        && g.compare_exchange(1, 2, Ordering::SeqCst, Ordering::SeqCst).is_ok()
+    {
+        while g.load(Ordering::SeqCst) != 3 {
+            std::thread::yield_now();
+        }
+        g.store(0, Ordering::SeqCst);
+    }
+}
+
 /// A named schedule point.
 #[inline]
 pub fn point(id: usize) {
     COUNTS[id % NPOINTS].fetch_add(1, Ordering::Relaxed);
+    pass_gate(id);
     let p = PERMILLE.load(Ordering::Relaxed);
     if p == 0 {
         return;
